@@ -182,7 +182,12 @@ func pfbCase(o *suiteOut, stream []byte, sizes, sched []int, segs []pfbSeg, well
 	}
 	_ = marker
 	// the same stream from a reader that hands over its last bytes together with io.EOF: same data, same end
-	if _, all2, _, last2, pan2 := runPFBWith(stream, sizes, sched, true); pan2 != "" {
+	line2, all2, _, last2, pan2 := runPFBWith(stream, sizes, sched, true)
+	if len(stream) <= 400 {
+		// ... also against the eager-source model (PFBEager.drainE; `pfb_eager_eof_same` relates it to the plain one)
+		o.emit(fmt.Sprintf("pfbe %s %s %s", hx(stream), intsStr(sizes), intsStr(sched)), line2, len(stream) > 2)
+	}
+	if pan2 != "" {
 		o.fail("C01", "no panic in the PFB decoder", caseLine+" (data with EOF)", "error value", pan2)
 	} else if same := bytes.Equal(all, all2) && pfbErrClass(last) == pfbErrClass(last2); !same && func() bool {
 		// the caller's buffers may end exactly where the data ends: the plain source reports the end with the next
@@ -197,6 +202,15 @@ func pfbCase(o *suiteOut, stream []byte, sizes, sched []int, segs []pfbSeg, well
 			hx(all)+":"+pfbErrClass(last), hx(all2)+":"+pfbErrClass(last2))
 	}
 	o.emit(caseLine, line, len(stream) > 2)
+}
+
+func replayPFBEager(o *suiteOut, line string) {
+	f := strings.Split(line, " ")
+	if len(f) != 4 {
+		must(fmt.Errorf("bad pfbe case %q", line))
+	}
+	res, _, _, _, _ := runPFBWith(unhx(f[1]), parseInts(f[2]), parseInts(f[3]), true)
+	o.emit(line, res, true)
 }
 
 func replayPFB(o *suiteOut, line string) {
@@ -345,4 +359,5 @@ func suitePFB(o *suiteOut, r *rng, tier string, n int) {
 func init() {
 	suites["pfb"] = suitePFB
 	replayers["pfb"] = replayPFB
+	replayers["pfbe"] = replayPFBEager
 }
